@@ -977,78 +977,140 @@ Fixpoint find_tag (tag : string) (ix : list (list bytes * rule))
       end
   end.
 
-Definition opt_val (kw : bytes) (k : kind) (v : cval) : list (bool * bytes) :=
-  match v with VOpt (Some x) => [(true, kw); (false, unext_k k x)] | _ => [] end.
-Definition opt_flag (kw : bytes) (v : cval) : list (bool * bytes) :=
-  match v with VFlag true => [(true, kw)] | _ => [] end.
+Definition opt_val (kw : string) (k : kind) (v : cval) : list (bool * bytes) :=
+  match v with VOpt (Some x) => [(true, tx kw); (false, unext_k k x)] | _ => [] end.
+Definition opt_flag (kw : string) (v : cval) : list (bool * bytes) :=
+  match v with VFlag true => [(true, tx kw)] | _ => [] end.
 Definition kwd (s : string) : bool * bytes := (true, tx s).
 Definition arg (b : bytes) : bool * bytes := (false, b).
+Definition ua (k : kind) (v : cval) : bool * bytes := (false, unext_k k v).
+Notation tokens := (list (bool * bytes)) (only parsing).
 
-(* tokens tagged "is a keyword" *)
-Definition unparse_custom (tag : string) (a : list cval) : option (list (bool * bytes)) :=
-  match tag, a with
-  | "Ping", [VOpt None] => Some [kwd "PING"]
-  | "Ping", [VOpt (Some m)] => Some [kwd "PING"; arg (unext m)]
-  | "Auth", [VOpt None; p] => Some [kwd "AUTH"; arg (unext p)]
-  | "Auth", [VOpt (Some u); p] => Some [kwd "AUTH"; arg (unext u); arg (unext p)]
-  | "Set", [k; v; ex; px; exat; pxat; nx; xx; g; kt] =>
-      Some ([kwd "SET"; arg (unext k); arg (unext v)]
-            ++ opt_flag (tx "NX") nx ++ opt_flag (tx "XX") xx ++ opt_flag (tx "GET") g
-            ++ opt_val (tx "EX") KInt ex ++ opt_val (tx "PX") KInt px
-            ++ opt_val (tx "EXAT") KInt exat ++ opt_val (tx "PXAT") KInt pxat
-            ++ opt_flag (tx "KEEPTTL") kt)
-  | "GetEx", [k; ex; px; exat; pxat; ps] =>
-      Some ([kwd "GETEX"; arg (unext k)]
-            ++ opt_val (tx "EX") KInt ex ++ opt_val (tx "PX") KInt px
-            ++ opt_val (tx "EXAT") KInt exat ++ opt_val (tx "PXAT") KInt pxat
-            ++ opt_flag (tx "PERSIST") ps)
-  | "Expire", [k; n; nx; xx; gt; lt] =>
-      Some ([kwd "EXPIRE"; arg (unext k); arg (unext n)]
-            ++ opt_flag (tx "NX") nx ++ opt_flag (tx "XX") xx ++ opt_flag (tx "GT") gt ++ opt_flag (tx "LT") lt)
-  | "PExpire", [k; n; nx; xx; gt; lt] =>
-      Some ([kwd "PEXPIRE"; arg (unext k); arg (unext n)]
-            ++ opt_flag (tx "NX") nx ++ opt_flag (tx "XX") xx ++ opt_flag (tx "GT") gt ++ opt_flag (tx "LT") lt)
-  | "ZRangeByScore", [k; mn; mx; ws; VOpt None] =>
-      Some ([kwd "ZRANGEBYSCORE"; arg (unext k); arg (unext mn); arg (unext mx)] ++ opt_flag (tx "WITHSCORES") ws)
-  | "ZRangeByScore", [k; mn; mx; ws; VOpt (Some (VP off cnt))] =>
-      Some ([kwd "ZRANGEBYSCORE"; arg (unext k); arg (unext mn); arg (unext mx)] ++ opt_flag (tx "WITHSCORES") ws
-            ++ [kwd "LIMIT"; arg (unext off); arg (unext_usz cnt)])
-  | "Scan", [c; pat; cnt] =>
-      Some ([kwd "SCAN"; arg (unext c)] ++ opt_val (tx "MATCH") KStr pat ++ opt_val (tx "COUNT") KUsz cnt)
-  | "HScan", [k; c; pat; cnt] =>
-      Some ([kwd "HSCAN"; arg (unext k); arg (unext c)] ++ opt_val (tx "MATCH") KStr pat ++ opt_val (tx "COUNT") KUsz cnt)
-  | "ZScan", [k; c; pat; cnt] =>
-      Some ([kwd "ZSCAN"; arg (unext k); arg (unext c)] ++ opt_val (tx "MATCH") KStr pat ++ opt_val (tx "COUNT") KUsz cnt)
-  | "Sort", [k; st] => Some ([kwd "SORT"; arg (unext k)] ++ opt_val (tx "STORE") KStr st)
-  | "ZAdd", [k; VL ps; nx; xx; gt; lt; ch] =>
-      Some ([kwd "ZADD"; arg (unext k)]
-            ++ opt_flag (tx "NX") nx ++ opt_flag (tx "XX") xx ++ opt_flag (tx "GT") gt
-            ++ opt_flag (tx "LT") lt ++ opt_flag (tx "CH") ch
-            ++ flat_map (fun p => match p with VP s m => [arg (unext s); arg (unext m)] | _ => [] end) ps)
-  | "ZRange", [k; x; y; ws] =>
-      Some ([kwd "ZRANGE"; arg (unext k); arg (unext x); arg (unext y)] ++ opt_flag (tx "WITHSCORES") ws)
-  | "ZRevRange", [k; x; y; ws] =>
-      Some ([kwd "ZREVRANGE"; arg (unext k); arg (unext x); arg (unext y)] ++ opt_flag (tx "WITHSCORES") ws)
-  | "SPop", [k; VOpt None] => Some [kwd "SPOP"; arg (unext k)]
-  | "SPop", [k; VOpt (Some n)] => Some [kwd "SPOP"; arg (unext k); arg (unext n)]
-  | "LMove", [s; d; VS f; VS t] => Some [kwd "LMOVE"; arg (unext s); arg (unext d); (true, f); (true, t)]
-  | "Eval", [s; VL ks; VL vs] =>
-      Some ([kwd "EVAL"; arg (unext s); arg (itoa (Z.of_nat (List.length ks)))] ++ map (fun v => arg (unext v)) (ks ++ vs))
-  | "EvalSha", [s; VL ks; VL vs] =>
-      Some ([kwd "EVALSHA"; arg (unext s); arg (itoa (Z.of_nat (List.length ks)))] ++ map (fun v => arg (unext v)) (ks ++ vs))
-  | "AclCat", [VOpt None] => Some [kwd "ACL"; kwd "CAT"]
-  | "AclCat", [VOpt (Some c)] => Some [kwd "ACL"; kwd "CAT"; arg (unext c)]
-  | "AclGenPass", [VOpt None] => Some [kwd "ACL"; kwd "GENPASS"]
-  | "AclGenPass", [VOpt (Some n)] => Some [kwd "ACL"; kwd "GENPASS"; arg (unext n)]
-  | "AclLog", [VOpt None] => Some [kwd "ACL"; kwd "LOG"]
-  | "AclLog", [VOpt (Some n)] => Some [kwd "ACL"; kwd "LOG"; arg (unext n)]
-  | "AclLogReset", [] => Some [kwd "ACL"; kwd "LOG"; kwd "RESET"]
-  | "CommandCommand", [] => Some [kwd "COMMAND"]
-  | "CommandCount", [] => Some [kwd "COMMAND"; kwd "COUNT"]
-  | "DebugSet", [VS sub; v] => Some [kwd "DEBUG"; (true, sub); arg (unext v)]
-  | "Unknown", [VS n] => Some [(true, n)]
-  | _, _ => None
+(* tokens are tagged "is a keyword"; one printer per command that is not an RSimple row *)
+Definition u_ping (a : list cval) : option tokens :=
+  match a with
+  | [VOpt None] => Some [kwd "PING"]
+  | [VOpt (Some m)] => Some [kwd "PING"; ua KSds m]
+  | _ => None
   end.
+Definition u_auth (a : list cval) : option tokens :=
+  match a with
+  | [VOpt None; p] => Some [kwd "AUTH"; ua KStr p]
+  | [VOpt (Some u); p] => Some [kwd "AUTH"; ua KStr u; ua KStr p]
+  | _ => None
+  end.
+Definition u_set (a : list cval) : option tokens :=
+  match a with
+  | [k; v; ex; px; exat; pxat; nx; xx; g; kt] =>
+      Some ([kwd "SET"; ua KStr k; ua KSds v]
+            ++ opt_flag "NX" nx ++ opt_flag "XX" xx ++ opt_flag "GET" g
+            ++ opt_val "EX" KInt ex ++ opt_val "PX" KInt px
+            ++ opt_val "EXAT" KInt exat ++ opt_val "PXAT" KInt pxat
+            ++ opt_flag "KEEPTTL" kt)
+  | _ => None
+  end.
+Definition u_getex (a : list cval) : option tokens :=
+  match a with
+  | [k; ex; px; exat; pxat; ps] =>
+      Some ([kwd "GETEX"; ua KStr k]
+            ++ opt_val "EX" KInt ex ++ opt_val "PX" KInt px
+            ++ opt_val "EXAT" KInt exat ++ opt_val "PXAT" KInt pxat
+            ++ opt_flag "PERSIST" ps)
+  | _ => None
+  end.
+Definition u_expire (name : string) (a : list cval) : option tokens :=
+  match a with
+  | [k; n; nx; xx; gt; lt] =>
+      Some ([kwd name; ua KStr k; ua KInt n]
+            ++ opt_flag "NX" nx ++ opt_flag "XX" xx ++ opt_flag "GT" gt ++ opt_flag "LT" lt)
+  | _ => None
+  end.
+Definition u_zrangebyscore (a : list cval) : option tokens :=
+  match a with
+  | [k; mn; mx; ws; VOpt None] =>
+      Some ([kwd "ZRANGEBYSCORE"; ua KStr k; ua KStr mn; ua KStr mx] ++ opt_flag "WITHSCORES" ws)
+  | [k; mn; mx; ws; VOpt (Some (VP off cnt))] =>
+      Some ([kwd "ZRANGEBYSCORE"; ua KStr k; ua KStr mn; ua KStr mx] ++ opt_flag "WITHSCORES" ws
+            ++ [kwd "LIMIT"; ua KInt off; ua KUsz cnt])
+  | _ => None
+  end.
+Definition u_scan (a : list cval) : option tokens :=
+  match a with
+  | [c; pat; cnt] => Some ([kwd "SCAN"; ua KU64 c] ++ opt_val "MATCH" KStr pat ++ opt_val "COUNT" KUsz cnt)
+  | _ => None
+  end.
+Definition u_kscan (name : string) (a : list cval) : option tokens :=
+  match a with
+  | [k; c; pat; cnt] =>
+      Some ([kwd name; ua KStr k; ua KU64 c] ++ opt_val "MATCH" KStr pat ++ opt_val "COUNT" KUsz cnt)
+  | _ => None
+  end.
+Definition u_sort (a : list cval) : option tokens :=
+  match a with
+  | [k; st] => Some ([kwd "SORT"; ua KStr k] ++ opt_val "STORE" KStr st)
+  | _ => None
+  end.
+Definition pair_toks (k1 k2 : kind) (p : cval) : tokens :=
+  match p with VP x y => [ua k1 x; ua k2 y] | _ => [] end.
+Definition u_zadd (a : list cval) : option tokens :=
+  match a with
+  | [k; VL ps; nx; xx; gt; lt; ch] =>
+      Some ([kwd "ZADD"; ua KStr k]
+            ++ opt_flag "NX" nx ++ opt_flag "XX" xx ++ opt_flag "GT" gt
+            ++ opt_flag "LT" lt ++ opt_flag "CH" ch
+            ++ flat_map (pair_toks KFloat KSds) ps)
+  | _ => None
+  end.
+Definition u_zrange (name : string) (a : list cval) : option tokens :=
+  match a with
+  | [k; x; y; ws] => Some ([kwd name; ua KStr k; ua KInt x; ua KInt y] ++ opt_flag "WITHSCORES" ws)
+  | _ => None
+  end.
+Definition u_spop (a : list cval) : option tokens :=
+  match a with
+  | [k; VOpt None] => Some [kwd "SPOP"; ua KStr k]
+  | [k; VOpt (Some n)] => Some [kwd "SPOP"; ua KStr k; ua KUszStr n]
+  | _ => None
+  end.
+Definition u_lmove (a : list cval) : option tokens :=
+  match a with
+  | [s; d; VS f; VS t] => Some [kwd "LMOVE"; ua KStr s; ua KStr d; (true, f); (true, t)]
+  | _ => None
+  end.
+Definition u_eval (name : string) (a : list cval) : option tokens :=
+  match a with
+  | [s; VL ks; VL vs] =>
+      Some ([kwd name; ua KStr s; arg (itoa (Z.of_nat (List.length ks)))]
+            ++ map (ua KStr) ks ++ map (ua KSds) vs)
+  | _ => None
+  end.
+Definition u_aclcat (a : list cval) : option tokens :=
+  match a with
+  | [VOpt None] => Some [kwd "ACL"; kwd "CAT"]
+  | [VOpt (Some c)] => Some [kwd "ACL"; kwd "CAT"; ua KStr c]
+  | _ => None
+  end.
+Definition u_aclgenpass (a : list cval) : option tokens :=
+  match a with
+  | [VOpt None] => Some [kwd "ACL"; kwd "GENPASS"]
+  | [VOpt (Some n)] => Some [kwd "ACL"; kwd "GENPASS"; ua KU32Str n]
+  | _ => None
+  end.
+Definition u_acllog (a : list cval) : option tokens :=
+  match a with
+  | [VOpt None] => Some [kwd "ACL"; kwd "LOG"]
+  | [VOpt (Some n)] => Some [kwd "ACL"; kwd "LOG"; ua KUszStr n]
+  | _ => None
+  end.
+Definition u_const (ws : list string) (a : list cval) : option tokens :=
+  match a with [] => Some (map kwd ws) | _ => None end.
+Definition u_debugset (a : list cval) : option tokens :=
+  match a with
+  | [VS sub; v] => Some [kwd "DEBUG"; (true, sub); ua KStr v]
+  | _ => None
+  end.
+Definition u_unknown (a : list cval) : option tokens :=
+  match a with [VS n] => Some [(true, n)] | _ => None end.
 
 Definition unparse_tokens (c : cmd) : option (list (bool * bytes)) :=
   let '(Cmd tag a) := c in
@@ -1198,61 +1260,139 @@ Definition is_dir (s : bytes) : bool := bytes_eqb s (tx "LEFT") || bytes_eqb s (
 Definition none_lookup {A} (n : bytes) (t : list (bytes * A)) : bool :=
   match lookup n t with None => true | Some _ => false end.
 
-Definition canonical_custom (tag : string) (a : list cval) : bool :=
-  match tag, a with
-  | "Ping", [VOpt None] => true
-  | "Ping", [VOpt (Some m)] => wf_val KSds m
-  | "Auth", [VOpt None; p] => wf_val KStr p
-  | "Auth", [VOpt (Some u); p] => wf_val KStr u && wf_val KStr p
-  | "Set", [k; v; ex; px; exat; pxat; nx; xx; g; kt] =>
+Definition c_ping (a : list cval) : bool :=
+  match a with [VOpt None] => true | [VOpt (Some m)] => wf_val KSds m | _ => false end.
+Definition c_auth (a : list cval) : bool :=
+  match a with
+  | [VOpt None; p] => wf_val KStr p
+  | [VOpt (Some u); p] => wf_val KStr u && wf_val KStr p
+  | _ => false
+  end.
+Definition c_set (a : list cval) : bool :=
+  match a with
+  | [k; v; ex; px; exat; pxat; nx; xx; g; kt] =>
       wf_val KStr k && wf_val KSds v && wf_opt KInt ex && wf_opt KInt px && wf_opt KInt exat
       && wf_opt KInt pxat && is_flag nx && is_flag xx && is_flag g && is_flag kt
       && negb (flag_of nx && flag_of xx)
       && negb (flag_of kt && (is_some ex || is_some px || is_some exat || is_some pxat))
-  | "GetEx", [k; ex; px; exat; pxat; ps] =>
+  | _ => false
+  end.
+Definition c_getex (a : list cval) : bool :=
+  match a with
+  | [k; ex; px; exat; pxat; ps] =>
       wf_val KStr k && wf_opt KInt ex && wf_opt KInt px && wf_opt KInt exat && wf_opt KInt pxat
       && is_flag ps
       && Nat.leb (count_true [is_some ex; is_some px; is_some exat; is_some pxat; flag_of ps]) 1
-  | ("Expire" | "PExpire"), [k; n; nx; xx; gt; lt] =>
+  | _ => false
+  end.
+Definition c_expire (a : list cval) : bool :=
+  match a with
+  | [k; n; nx; xx; gt; lt] =>
       wf_val KStr k && wf_val KInt n && is_flag nx && is_flag xx && is_flag gt && is_flag lt
       && negb (flag_of nx && (flag_of xx || flag_of gt || flag_of lt))
       && negb (flag_of gt && flag_of lt)
-  | "ZRangeByScore", [k; mn; mx; ws; VOpt None] =>
-      wf_val KStr k && wf_val KStr mn && wf_val KStr mx && is_flag ws
-  | "ZRangeByScore", [k; mn; mx; ws; VOpt (Some (VP off cnt))] =>
+  | _ => false
+  end.
+Definition c_zrangebyscore (a : list cval) : bool :=
+  match a with
+  | [k; mn; mx; ws; VOpt None] => wf_val KStr k && wf_val KStr mn && wf_val KStr mx && is_flag ws
+  | [k; mn; mx; ws; VOpt (Some (VP off cnt))] =>
       wf_val KStr k && wf_val KStr mn && wf_val KStr mx && is_flag ws
       && wf_val KInt off && wf_val KUsz cnt
-  | "Scan", [c; pat; cnt] => wf_val KU64 c && wf_opt KStr pat && wf_opt KUsz cnt
-  | ("HScan" | "ZScan"), [k; c; pat; cnt] =>
-      wf_val KStr k && wf_val KU64 c && wf_opt KStr pat && wf_opt KUsz cnt
-  | "Sort", [k; st] => wf_val KStr k && wf_opt KStr st
-  | "ZAdd", [k; VL ps; nx; xx; gt; lt; ch] =>
+  | _ => false
+  end.
+Definition c_scan (a : list cval) : bool :=
+  match a with
+  | [c; pat; cnt] => wf_val KU64 c && wf_opt KStr pat && wf_opt KUsz cnt
+  | _ => false
+  end.
+Definition c_kscan (a : list cval) : bool :=
+  match a with
+  | [k; c; pat; cnt] => wf_val KStr k && wf_val KU64 c && wf_opt KStr pat && wf_opt KUsz cnt
+  | _ => false
+  end.
+Definition c_sort (a : list cval) : bool :=
+  match a with [k; st] => wf_val KStr k && wf_opt KStr st | _ => false end.
+Definition c_zadd (a : list cval) : bool :=
+  match a with
+  | [k; VL ps; nx; xx; gt; lt; ch] =>
       wf_val KStr k && nonempty ps && forallb (wf_pair KFloat KSds) ps
       && is_flag nx && is_flag xx && is_flag gt && is_flag lt && is_flag ch
       && match ps with
          | VP (VF t) _ :: _ => match zadd_flag (ustr t) with None => true | Some _ => false end
          | _ => false
          end
-  | ("ZRange" | "ZRevRange"), [k; x; y; ws] =>
-      wf_val KStr k && wf_val KInt x && wf_val KInt y && is_flag ws
-  | "SPop", [k; VOpt None] => wf_val KStr k
-  | "SPop", [k; VOpt (Some n)] => wf_val KStr k && wf_val KUszStr n
-  | "LMove", [s; d; VS f; VS t] => wf_val KStr s && wf_val KStr d && is_dir f && is_dir t
-  | ("Eval" | "EvalSha"), [s; VL ks; VL vs] =>
-      wf_val KStr s && forallb (wf_val KStr) ks && forallb (wf_val KSds) vs
-  | "AclCat", [VOpt None] => true
-  | "AclCat", [VOpt (Some c)] => wf_val KStr c
-  | "AclGenPass", [VOpt None] => true
-  | "AclGenPass", [VOpt (Some n)] => wf_val KU32Str n
-  | "AclLog", [VOpt None] => true
-  | "AclLog", [VOpt (Some n)] => wf_val KUszStr n
-  | "AclLogReset", [] => true
-  | "CommandCommand", [] => true
-  | "CommandCount", [] => true
-  | "DebugSet", [VS sub; v] => bytes_eqb (ustr sub) sub && none_lookup sub debug_tbl && wf_val KStr v
-  | "Unknown", [VS n] => bytes_eqb (ustr n) n && none_lookup n grammar
-  | _, _ => false
+  | _ => false
   end.
+Definition c_zrange (a : list cval) : bool :=
+  match a with
+  | [k; x; y; ws] => wf_val KStr k && wf_val KInt x && wf_val KInt y && is_flag ws
+  | _ => false
+  end.
+Definition c_spop (a : list cval) : bool :=
+  match a with
+  | [k; VOpt None] => wf_val KStr k
+  | [k; VOpt (Some n)] => wf_val KStr k && wf_val KUszStr n
+  | _ => false
+  end.
+Definition c_lmove (a : list cval) : bool :=
+  match a with
+  | [s; d; VS f; VS t] => wf_val KStr s && wf_val KStr d && is_dir f && is_dir t
+  | _ => false
+  end.
+Definition c_eval (a : list cval) : bool :=
+  match a with
+  | [s; VL ks; VL vs] => wf_val KStr s && forallb (wf_val KStr) ks && forallb (wf_val KSds) vs
+  | _ => false
+  end.
+Definition c_optional (k : kind) (a : list cval) : bool :=
+  match a with [VOpt None] => true | [VOpt (Some c)] => wf_val k c | _ => false end.
+Definition c_const (a : list cval) : bool := match a with [] => true | _ => false end.
+Definition c_debugset (a : list cval) : bool :=
+  match a with
+  | [VS sub; v] => bytes_eqb (ustr sub) sub && none_lookup sub debug_tbl && wf_val KStr v
+  | _ => false
+  end.
+Definition c_unknown (a : list cval) : bool :=
+  match a with [VS n] => bytes_eqb (ustr n) n && none_lookup n grammar | _ => false end.
+
+Record custom := { c_canon : list cval -> bool; c_unparse : list cval -> option (list (bool * bytes)) }.
+Definition customs : list (string * custom) :=
+  [ ("Ping", {| c_canon := c_ping; c_unparse := u_ping |});
+    ("Auth", {| c_canon := c_auth; c_unparse := u_auth |});
+    ("Set", {| c_canon := c_set; c_unparse := u_set |});
+    ("GetEx", {| c_canon := c_getex; c_unparse := u_getex |});
+    ("Expire", {| c_canon := c_expire; c_unparse := u_expire "EXPIRE" |});
+    ("PExpire", {| c_canon := c_expire; c_unparse := u_expire "PEXPIRE" |});
+    ("ZRangeByScore", {| c_canon := c_zrangebyscore; c_unparse := u_zrangebyscore |});
+    ("Scan", {| c_canon := c_scan; c_unparse := u_scan |});
+    ("HScan", {| c_canon := c_kscan; c_unparse := u_kscan "HSCAN" |});
+    ("ZScan", {| c_canon := c_kscan; c_unparse := u_kscan "ZSCAN" |});
+    ("Sort", {| c_canon := c_sort; c_unparse := u_sort |});
+    ("ZAdd", {| c_canon := c_zadd; c_unparse := u_zadd |});
+    ("ZRange", {| c_canon := c_zrange; c_unparse := u_zrange "ZRANGE" |});
+    ("ZRevRange", {| c_canon := c_zrange; c_unparse := u_zrange "ZREVRANGE" |});
+    ("SPop", {| c_canon := c_spop; c_unparse := u_spop |});
+    ("LMove", {| c_canon := c_lmove; c_unparse := u_lmove |});
+    ("Eval", {| c_canon := c_eval; c_unparse := u_eval "EVAL" |});
+    ("EvalSha", {| c_canon := c_eval; c_unparse := u_eval "EVALSHA" |});
+    ("AclCat", {| c_canon := c_optional KStr; c_unparse := u_aclcat |});
+    ("AclGenPass", {| c_canon := c_optional KU32Str; c_unparse := u_aclgenpass |});
+    ("AclLog", {| c_canon := c_optional KUszStr; c_unparse := u_acllog |});
+    ("AclLogReset", {| c_canon := c_const; c_unparse := u_const ["ACL"; "LOG"; "RESET"] |});
+    ("CommandCommand", {| c_canon := c_const; c_unparse := u_const ["COMMAND"] |});
+    ("CommandCount", {| c_canon := c_const; c_unparse := u_const ["COMMAND"; "COUNT"] |});
+    ("DebugSet", {| c_canon := c_debugset; c_unparse := u_debugset |});
+    ("Unknown", {| c_canon := c_unknown; c_unparse := u_unknown |}) ].
+Fixpoint find_custom (tag : string) (l : list (string * custom)) : option custom :=
+  match l with
+  | [] => None
+  | (t, c) :: r => if String.eqb tag t then Some c else find_custom tag r
+  end.
+Definition canonical_custom (tag : string) (a : list cval) : bool :=
+  match find_custom tag customs with Some c => c_canon c a | None => false end.
+Definition unparse_custom (tag : string) (a : list cval) : option (list (bool * bytes)) :=
+  match find_custom tag customs with Some c => c_unparse c a | None => None end.
 Definition canonical (c : cmd) : bool :=
   let '(Cmd tag a) := c in
   match find_tag tag simple_index with
